@@ -40,7 +40,7 @@ def run_one(case, r, seed, encoding="utf-8", variant="main"):
     surrogates = True
     if variant == "printable":       # junk restricted to what the configured stdout can encode
         surrogates = False
-        nonascii = encoding.lower().replace("-", "") == "utf8"
+        nonascii = (encoding or "ascii").lower().replace("-", "") == "utf8"
     sigs = gamma.build_sigmap(case, keys, Pb, Qb, r, nonascii=nonascii, surrogates=surrogates)
     env = {"signatures": sigs, "signed": P}
     auth = gamma.auth_list(case["auth"], keys, r, dups=True)
@@ -132,5 +132,5 @@ def sig_of(o):
 
 def coarse_sig(o):
     c = o["case"]
-    return (f"verify_signable[{o['variant']}{'' if o['encoding'] == 'utf-8' else ':' + o['encoding']}] gpg={c['gpg']} "
+    return (f"verify_signable[{o['variant']}{'' if o['encoding'] == 'utf-8' else ':' + str(o['encoding'])}] gpg={c['gpg']} "
             f"allowed={'|'.join(c['allowed'])} observed={o['observed']}")
